@@ -146,7 +146,7 @@ class SphinxProject:
     """One real Sphinx application in a temp dir, reusable across documents."""
 
     def __init__(self, confoverrides: dict | None = None, files: dict[str, str] | None = None,
-                 buildername: str = "html", parallel: int = 0, extensions=None):
+                 buildername: str = "html", parallel: int = 0, extensions=None, conf_text: str = ""):
         from docutils.parsers.rst import directives as _d, roles as _r
 
         self._saved = (dict(_d._directives), dict(_r._roles))
@@ -158,7 +158,7 @@ class SphinxProject:
         self.out = os.path.join(self.tmp, "out")
         os.makedirs(self.src)
         with open(os.path.join(self.src, "conf.py"), "w") as fh:
-            fh.write("")
+            fh.write(conf_text)
         files = files or {"index.md": "# index\n"}
         for name, content in files.items():
             p = os.path.join(self.src, name)
